@@ -9,7 +9,7 @@ EXTRA = {"C05-m1": ["C05", "C15", "C16"], "C12-m1": ["C12", "C13"], "C16-m1": ["
          "C16-m2": ["C16"], "C12-m2": ["C12"], "C12-m2b": ["C12"],
          "C03-m2": ["C03"], "C04-m2": ["C04"], "C06-m2": ["C06", "C18", "C01"], "C11-m2": ["C11", "C20"], "C13-m2": ["C13"], "C15-m2": ["C15", "C16"], "C20-m2": ["C20", "C11"],
          "C01-m3": ["C01", "C17"], "C02-m3": ["C02", "C17"], "C05-m3": ["C05", "C18"], "C07-m3": ["C07", "C18"], "C17-m3": ["C17", "C02"], "C19-m3": ["C19", "C15", "C16"], "C03-m3": ["C03", "C08"], "C11-m3": ["C11", "C03"], "R-b5ad4f5": ["C09", "C18"], "R-4c29119": ["C16", "C19"], "R-d3199f5": ["C10"], "R-03da578": ["C16"], "C09-m3": ["C09", "C11"], "C16-m4": ["C16", "C05"], "C17-m4": ["C17", "C13"], "C20-m4": ["C20", "C13"], "C12-m4": ["C12", "C20"], "C15-m4": ["C15", "C16"], "C14-m4": ["C14", "C17"], "C09-m4": ["C09"], "C18-m4": ["C18", "C12"],
-         "C01-m5": ["C01", "C07"], "C04-m5": ["C04", "C03"], "C07-m5": ["C07", "C05"], "C13-m5": ["C13", "C18"], "C18-m5": ["C18", "C13"], "C16-m5": ["C16", "C05"], "C19-m5": ["C19", "C09"], "C20-m5": ["C20", "C12"], "C17-m5": ["C17"], "C05-m5": ["C05", "C04"], "R-2af96c1": ["C05", "C16"], "R-6318dcd": ["C04"], "R-a5afad0": ["C19", "C16"], "R-3c3d42b": ["C08", "C05"], "R-28862b1": ["C12"], "C09-m6": ["C09", "C16"], "C11-m6": ["C11"], "C12-m6": ["C12", "C03"], "C14-m6": ["C14"], "C19-m6": ["C19", "C16"], "C03-m6": ["C03", "C01"], "C06-m6": ["C06", "C01"], "C05-m6": ["C05", "C01", "C06"], "C20-m6": ["C20", "C06"], "C01-m6": ["C01", "C06"], "C17-m6": ["C17", "C08", "C18"], "C18-m6": ["C18", "C17"], "C02-m6": ["C02", "C17"], "C13-m6": ["C13", "C02"], "C16-m6": ["C16"], "C07-m6": ["C07"], "C08-m6": ["C08", "C06"], "C10-m6": ["C10"], "C04-m6": ["C04", "C03"], "C15-m6": ["C15", "C14"], "R-0238794": ["C18"], "R-b419a80": ["C20"], "R-d3dd660": ["C03", "C04"], "R-5b0eaa4": ["C17", "C01", "C08"], "C14-m8": ["C14", "C17", "C18"], "C05-m8": ["C05", "C16"], "C11-m8": ["C11", "C10"], "C13-m8": ["C13", "C18"], "C15-m8": ["C15", "C16"], "C17-m8": ["C17"], "C20-m8": ["C20", "C02"], "C01-m8": ["C01", "C02"], "C02-m8": ["C02"], "C03-m8": ["C03", "C17"], "C04-m8": ["C04"], "C06-m8": ["C06", "C08"], "C07-m8": ["C07"], "C08-m8": ["C08"], "C09-m8": ["C09", "C19"], "C10-m8": ["C10"], "C12-m8": ["C12", "C13"], "C16-m8": ["C16", "C19"], "C18-m8": ["C18", "C17"], "C19-m8": ["C19", "C16"], "R-0f83c64": ["C18"], "R-0602507": ["C16"], "R-4ad748c": ["C18", "C16"], "C05-m7": ["C05", "C11", "C10", "C09"], "C09-m7": ["C09", "C04", "C07"], "C01-m7": ["C01", "C10"], "C03-m7": ["C03"], "C06-m7": ["C06", "C07"], "C07-m7": ["C07", "C03"], "C11-m7": ["C11", "C05", "C04"], "C13-m7": ["C13", "C03"], "C20-m7": ["C20"], "C02-m7": ["C02", "C13"], "C08-m7": ["C08"], "C18-m7": ["C18", "C01"], "C19-m7": ["C19", "C09"], "C14-m7": ["C14"], "C17-m7": ["C17", "C14"], "C16-m7": ["C16", "C09"], "C15-m7": ["C15", "C16"], "C12-m7": ["C12", "C13"], "C10-m7": ["C10"], "C04-m7": ["C04", "C20"], "R-8e6d1aa": ["C02", "C13"], "R-aac8a97": ["C06", "C01"], "R-12db06c": ["C04"], "C02-m9": ["C02", "C13"], "C13-m9": ["C13"], "C05-m9": ["C05", "C18"], "C04-m9": ["C04", "C03"], "C17-m9": ["C17"], "C10-m9": ["C10"], "C01-m9": ["C01", "C17"], "C19-m9": ["C19", "C16"], "C16-m9": ["C16", "C15"], "C11-m10": ["C11", "C16"], "C02-m10": ["C02", "C13"], "C05-m10": ["C05", "C16"], "C16-m10": ["C16", "C19"], "C10-m10": ["C10", "C07"], "R-cb6b3d8": ["C10"], "C19-m10": ["C19", "C09"], "R-258e905": ["C04"], "C15-m10": ["C15"], "C02-m11": ["C02"], "C10-m11": ["C10"], "C12-m11": ["C12", "C02"], "C05-m11": ["C05", "C08"], "C16-m11": ["C16", "C05"], "C09-m11": ["C09"], "C18-m11": ["C18"], "C20-m11": ["C20", "C19"], "C01-m11": ["C01", "C03"], "C03-m11": ["C04", "C03"]}
+         "C01-m5": ["C01", "C07"], "C04-m5": ["C04", "C03"], "C07-m5": ["C07", "C05"], "C13-m5": ["C13", "C18"], "C18-m5": ["C18", "C13"], "C16-m5": ["C16", "C05"], "C19-m5": ["C19", "C09"], "C20-m5": ["C20", "C12"], "C17-m5": ["C17"], "C05-m5": ["C05", "C04"], "R-2af96c1": ["C05", "C16"], "R-6318dcd": ["C04"], "R-a5afad0": ["C19", "C16"], "R-3c3d42b": ["C08", "C05"], "R-28862b1": ["C12"], "C09-m6": ["C09", "C16"], "C11-m6": ["C11"], "C12-m6": ["C12", "C03"], "C14-m6": ["C14"], "C19-m6": ["C19", "C16"], "C03-m6": ["C03", "C01"], "C06-m6": ["C06", "C01"], "C05-m6": ["C05", "C01", "C06"], "C20-m6": ["C20", "C06"], "C01-m6": ["C01", "C06"], "C17-m6": ["C17", "C08", "C18"], "C18-m6": ["C18", "C17"], "C02-m6": ["C02", "C17"], "C13-m6": ["C13", "C02"], "C16-m6": ["C16"], "C07-m6": ["C07"], "C08-m6": ["C08", "C06"], "C10-m6": ["C10"], "C04-m6": ["C04", "C03"], "C15-m6": ["C15", "C14"], "R-0238794": ["C18"], "R-b419a80": ["C20"], "R-d3dd660": ["C03", "C04"], "R-5b0eaa4": ["C17", "C01", "C08"], "C14-m8": ["C14", "C17", "C18"], "C05-m8": ["C05", "C16"], "C11-m8": ["C11", "C10"], "C13-m8": ["C13", "C18"], "C15-m8": ["C15", "C16"], "C17-m8": ["C17"], "C20-m8": ["C20", "C02"], "C01-m8": ["C01", "C02"], "C02-m8": ["C02"], "C03-m8": ["C03", "C17"], "C04-m8": ["C04"], "C06-m8": ["C06", "C08"], "C07-m8": ["C07"], "C08-m8": ["C08"], "C09-m8": ["C09", "C19"], "C10-m8": ["C10"], "C12-m8": ["C12", "C13"], "C16-m8": ["C16", "C19"], "C18-m8": ["C18", "C17"], "C19-m8": ["C19", "C16"], "R-0f83c64": ["C18"], "R-0602507": ["C16"], "R-4ad748c": ["C18", "C16"], "C05-m7": ["C05", "C11", "C10", "C09"], "C09-m7": ["C09", "C04", "C07"], "C01-m7": ["C01", "C10"], "C03-m7": ["C03"], "C06-m7": ["C06", "C07"], "C07-m7": ["C07", "C03"], "C11-m7": ["C11", "C05", "C04"], "C13-m7": ["C13", "C03"], "C20-m7": ["C20"], "C02-m7": ["C02", "C13"], "C08-m7": ["C08"], "C18-m7": ["C18", "C01"], "C19-m7": ["C19", "C09"], "C14-m7": ["C14"], "C17-m7": ["C17", "C14"], "C16-m7": ["C16", "C09"], "C15-m7": ["C15", "C16"], "C12-m7": ["C12", "C13"], "C10-m7": ["C10"], "C04-m7": ["C04", "C20"], "R-8e6d1aa": ["C02", "C13"], "R-aac8a97": ["C06", "C01"], "R-12db06c": ["C04"], "C02-m9": ["C02", "C13"], "C13-m9": ["C13"], "C05-m9": ["C05", "C18"], "C04-m9": ["C04", "C03"], "C17-m9": ["C17"], "C10-m9": ["C10"], "C01-m9": ["C01", "C17"], "C19-m9": ["C19", "C16"], "C16-m9": ["C16", "C15"], "C11-m10": ["C11", "C16"], "C02-m10": ["C02", "C13"], "C05-m10": ["C05", "C16"], "C16-m10": ["C16", "C19"], "C10-m10": ["C10", "C07"], "R-cb6b3d8": ["C10"], "C19-m10": ["C19", "C09"], "R-258e905": ["C04"], "C15-m10": ["C15"], "C02-m11": ["C02"], "C10-m11": ["C10"], "C12-m11": ["C12", "C02"], "C05-m11": ["C05", "C08"], "C16-m11": ["C16", "C05"], "C09-m11": ["C09"], "C18-m11": ["C18"], "C20-m11": ["C20", "C19"], "C01-m11": ["C01", "C03"], "C03-m11": ["C04", "C03"], "C07-m11": ["C07", "C10"], "C17-m11": ["C17", "C03"]}
 only = sys.argv[1:]
 for d in sorted(glob.glob("/verif/seeded/*")):
     name = os.path.basename(d)
